@@ -16,7 +16,6 @@ import (
 	"runtime/debug"
 	"strings"
 	"sync"
-	"time"
 
 	"github.com/jech/storrent/hash"
 	"github.com/jech/storrent/peer"
@@ -41,7 +40,36 @@ type PP struct {
 	panicked  string
 	conn      *segconn.End
 	w         *World
+	hold      chan struct{} // non-nil while the harness plays a remote that does not read
+	holdReq   chan struct{}
 }
+
+// WriterCap is the capacity of the channel between a peer and its writer
+// (peer.Run uses 64).
+var WriterCap = 64
+
+// StopReading makes the remote stop reading: what storrent writes to this
+// peer piles up in the writer channel (write congestion).
+func (pp *PP) StopReading() {
+	pp.sentMu.Lock()
+	already := pp.hold != nil
+	if !already {
+		pp.hold = make(chan struct{})
+	}
+	pp.sentMu.Unlock()
+	if already {
+		return
+	}
+	// wait until the draining goroutine has seen it: nothing is taken from the
+	// writer channel after StopReading has returned
+	select {
+	case pp.holdReq <- struct{}{}:
+	case <-pp.stop:
+	}
+}
+
+// Congested reports whether more than half of the writer channel is in use.
+func (pp *PP) Congested() bool { return len(pp.writer) > cap(pp.writer)/2 }
 
 type World struct {
 	T     *tor.Torrent
@@ -84,7 +112,7 @@ func (w *World) AddPeer(caps Caps, incoming bool) *PP {
 	res := protocol.HandshakeResult{Hash: w.T.Hash, Id: hash.Hash(id), Dht: caps.DHT, Fast: caps.Fast, Extended: caps.Extended}
 	p := peer.New("", a, addr, incoming, res)
 	p.Log.SetOutput(discard{})
-	pp := &PP{P: p, N: n, torEvents: make(chan peer.TorEvent, 1<<16), writer: make(chan protocol.Message, 1<<12), wdone: make(chan struct{}),
+	pp := &PP{P: p, N: n, torEvents: make(chan peer.TorEvent, 1<<16), writer: make(chan protocol.Message, WriterCap), wdone: make(chan struct{}), holdReq: make(chan struct{}),
 		stop: make(chan struct{}), Alive: true, conn: a, w: w}
 	var info []byte
 	if w.T.InfoComplete() {
@@ -104,8 +132,25 @@ func (discard) Write(p []byte) (int, error) { return len(p), nil }
 
 func (pp *PP) drainWriter() {
 	for {
+		pp.sentMu.Lock()
+		hold := pp.hold
+		pp.sentMu.Unlock()
+		if hold != nil {
+			select {
+			case <-hold:
+			case <-pp.holdReq:
+			case <-pp.stop:
+				return
+			}
+			continue
+		}
 		select {
+		case <-pp.holdReq:
 		case m := <-pp.writer:
+			if b, ok := m.(barrier); ok {
+				close(b.done)
+				continue
+			}
 			pp.sentMu.Lock()
 			if len(pp.Sent) < 100000 {
 				pp.Sent = append(pp.Sent, m)
@@ -120,6 +165,22 @@ func (pp *PP) drainWriter() {
 // TakeSent returns what storrent wrote to this peer.
 func (pp *PP) TakeSent() []protocol.Message {
 	pp.sentMu.Lock()
+	held := pp.hold != nil
+	pp.sentMu.Unlock()
+	if !held {
+		// a marker through the writer channel: when the draining goroutine
+		// reaches it, everything written before is in Sent
+		b := barrier{make(chan struct{})}
+		select {
+		case pp.writer <- b:
+			select {
+			case <-b.done:
+			case <-pp.stop:
+			}
+		case <-pp.stop:
+		}
+	}
+	pp.sentMu.Lock()
 	defer pp.sentMu.Unlock()
 	s := pp.Sent
 	pp.Sent = nil
@@ -131,6 +192,10 @@ func (pp *PP) serve() {
 	for {
 		select {
 		case e := <-pp.P.Event:
+			if b, ok := e.(barrier); ok {
+				close(b.done)
+				continue
+			}
 			pp.mu.Lock()
 			if !pp.Alive {
 				// Run has exited: nobody reads the mailbox any more
@@ -233,34 +298,22 @@ func (w *World) Drain() string {
 	for round := 0; round < 200000; round++ {
 		w.Collect()
 		if len(w.Pending) == 0 {
-			// peers may still be working on commands the torrent sent
-			idle := true
+			// peers may still be working on commands the torrent sent: a marker
+			// through every mailbox (FIFO) returns when they have been handled
+			w.barrier()
+			w.Collect()
+			if len(w.Pending) > 0 {
+				continue
+			}
 			for _, pp := range w.Peers {
-				if len(pp.P.Event) > 0 && pp.Alive {
-					idle = false
-				}
-				// (taking the lock makes sure no handler is in progress)
 				pp.mu.Lock()
+				p := pp.panicked
 				pp.mu.Unlock()
-			}
-			if idle {
-				w.Collect()
-				idle = len(w.Pending) == 0
-			}
-			if idle {
-				for _, pp := range w.Peers {
-					pp.mu.Lock()
-					p := pp.panicked
-					pp.mu.Unlock()
-					if p != "" {
-						return p
-					}
+				if p != "" {
+					return p
 				}
-				return ""
 			}
-			// give the peers' goroutines a moment (real or virtual time)
-			time.Sleep(20 * time.Microsecond)
-			continue
+			return ""
 		}
 		e := w.Pending[0]
 		w.Pending = w.Pending[1:]
@@ -269,6 +322,24 @@ func (w *World) Drain() string {
 		}
 	}
 	return "event processing does not terminate"
+}
+
+// barrier is what the harness sends through a peer's mailbox, or through its
+// writer channel, to learn that everything sent before has been consumed.
+type barrier struct{ done chan struct{} }
+
+func (w *World) barrier() {
+	for _, pp := range w.Peers {
+		b := barrier{make(chan struct{})}
+		select {
+		case pp.P.Event <- b:
+			select {
+			case <-b.done:
+			case <-pp.stop:
+			}
+		case <-pp.stop:
+		}
+	}
 }
 
 // Tick calls the functions Torrent.run calls on its five-second ticker
